@@ -11,7 +11,7 @@ def run(chk: common.Check):
     # run-level clauses: every state change of every task during end-to-end runs of the real simulator
     from harness.suites import _e2e_common as e2e
 
-    e2e.run_suite(chk, "C07", n_quick=100, n_thorough=1500, streams=("regular", "resolve", "batch", "retime", "resolve", "dag"))
+    e2e.run_suite(chk, "C07", n_quick=250, n_thorough=2500, streams=("regular", "resolve", "batch", "retime", "resolve", "dag"))
     chk.rule = rule + " || end-to-end: " + chk.rule
 
 
